@@ -280,6 +280,18 @@ def derive_pattern(rng, src, tree):
     if not exprs and not stmt_lists:
         return None
     run_leaves = None
+    slotty = [n for n in ast.walk(tree) if is_slotty(n)]
+    if slotty and rng.random() < 0.14:
+        # a node with optional children: the set ones become wildcards, so that only the slot pattern is left
+        root = rng.choice(slotty)
+        if isinstance(root, ast.stmt):
+            roots, kind = [root], "stmts"
+            seg_start, seg_end = off.starts[root.lineno - 1], off.end(root)
+        else:
+            roots, kind = [root], "expr"
+            seg_start, seg_end = off.start(root), off.end(root)
+        run_leaves = [c for c in optional_children(root) if isinstance(c, ast.expr) and hasattr(c, "lineno")]
+        return _finish_pattern(rng, src, off, roots, kind, seg_start, seg_end, run_leaves, "optional-slots")
     if stmt_lists and (not exprs or rng.random() < 0.38):
         runs = find_runs(stmt_lists)
         if runs and rng.random() < 0.55:
@@ -305,6 +317,38 @@ def derive_pattern(rng, src, tree):
         roots = [root]
         seg_start, seg_end = off.start(root), off.end(root)
         kind = "expr"
+    return _finish_pattern(rng, src, off, roots, kind, seg_start, seg_end, run_leaves,
+                           "run-window" if run_leaves is not None else kind)
+
+
+def is_slotty(n):
+    if isinstance(n, ast.Subscript) and isinstance(n.slice, ast.Slice):
+        return True
+    if isinstance(n, ast.Raise) and n.exc is not None:
+        return True
+    if isinstance(n, ast.AnnAssign) and isinstance(n.target, ast.Name):
+        return True
+    if isinstance(n, ast.Return) and n.value is not None:
+        return True
+    return isinstance(n, ast.Dict) and any(k is None for k in n.keys) and len(n.keys) >= 2
+
+
+def optional_children(n):
+    if isinstance(n, ast.Subscript):
+        return [c for c in (n.slice.lower, n.slice.upper, n.slice.step) if c is not None]
+    if isinstance(n, ast.Raise):
+        return [c for c in ([n.exc.args[0]] if isinstance(n.exc, ast.Call) and n.exc.args else [n.exc]) + [n.cause]
+                if c is not None]
+    if isinstance(n, ast.AnnAssign):
+        return [c for c in (n.value,) if c is not None] if n.value is not None else [n.annotation]
+    if isinstance(n, ast.Return):
+        return [n.value]
+    if isinstance(n, ast.Dict):
+        return [k for k in n.keys if k is not None]
+    return []
+
+
+def _finish_pattern(rng, src, off, roots, kind, seg_start, seg_end, run_leaves, label):
     # candidate sub-expressions to abstract
     inner = []
     for r in roots:
@@ -375,7 +419,48 @@ def derive_pattern(rng, src, tree):
         parse_pattern(model)
     except SyntaxError:
         return None
-    return {"user": user, "model": model, "exact": exact, "kind": "run-window" if run_leaves is not None else kind}
+    if "\n" not in model and rng.random() < 0.3:
+        # the pattern spelled with another layout than the code it was taken from
+        model2 = relayout(rng, model)
+        try:
+            if model2 is not None and dump(parse_pattern(model2)) == dump(parse_pattern(model)):
+                model = model2
+                user = unreserve(model2)
+        except SyntaxError:
+            pass
+    return {"user": user, "model": model, "exact": exact, "kind": label}
+
+
+def unreserve(model):
+    """reserved identifiers back to ${name}"""
+    def back(m):
+        return "${%s}" % m.group(1) if m.group(0).startswith(NORMAL) else "${?%s}" % m.group(1)
+    return re.sub(r"__rope__variable_(?:normal|any)_(\w*)", back, model)
+
+
+def relayout(rng, text):
+    """the same tokens with other spacing (single-line code)"""
+    import io
+    import tokenize
+    try:
+        toks = [t for t in tokenize.generate_tokens(io.StringIO(text).readline)
+                if t.type not in (tokenize.NEWLINE, tokenize.NL, tokenize.ENDMARKER, tokenize.INDENT, tokenize.DEDENT)]
+    except (tokenize.TokenError, SyntaxError, IndentationError):
+        return None
+    if any(t.type == tokenize.COMMENT for t in toks) or not toks:
+        return None
+    lead = text[:len(text) - len(text.lstrip(" "))]
+    out = [toks[0].string]
+    for prev, cur in zip(toks, toks[1:]):
+        a, b = prev.string[-1], cur.string[0]
+        wordy = lambda ch: ch.isalnum() or ch in "_'\"."          # noqa: E731
+        if wordy(a) and wordy(b) and not (a == "." and prev.string == ".") and not (b == "." and cur.string == "."):
+            sep = " "
+        else:
+            sep = rng.choice(["", " ", " ", "  "])
+        out.append(sep + cur.string)
+    return lead + "".join(out)
+
 
 
 # ----------------------------------------------------------------------------- rope driver
